@@ -238,6 +238,8 @@ func (n *CandidateNode) AddKeyValueChild(rawKey *CandidateNode, rawValue *Candid
 func (n *CandidateNode) AddChild(rawChild *CandidateNode) {
 	value := rawChild.Copy()
 	value.SetParent(n)
+	// an element of a sequence, whatever it was where it came from
+	value.IsMapKey = false
 	if value.Key != nil {
 		value.Key.SetParent(n)
 	} else {
